@@ -70,6 +70,7 @@ func yslow(id int) {
 		return
 	}
 	SiteHits[id]++
+	s.prog++
 	if s.budget > 0 {
 		s.budget--
 		if s.budget == 0 {
